@@ -338,6 +338,10 @@ class Models:
         A(r'^<std::str::Split<\'_, char> as Iterator>::next$', self.m_split_next)
         A(r'^<str as std::ops::Index<.*>>::index$', self.m_index_range)
         A(r'^<\[u8\] as (?:std::ops::|core::ops::)?Index<.*>>::index$', self.m_index_range)
+        A(r'^core::slice::<impl \[u8\]>::(starts_with|ends_with)$', self.m_bytes_starts_ends)
+        A(r'^<(?:std|core)::slice::Split<.*> as Iterator>::next$', self.m_bsplit_next)
+        A(r'^<(?:std|core)::slice::Iter<\'_, u8> as Iterator>::filter::<', lambda ex, c, a: Iter('filter', a[0].slice, a[0].pos, dict(pred=a[1])))
+        A(r'^<(?:std|core)::iter::Filter<.*> as Iterator>::count$', self.m_filter_count)
         A(r'^core::slice::<impl \[u8\]>::split::<', lambda ex, c, a: Iter('splitp', self.any_slice(ex, a[0]), 0, dict(pred=a[1], done=False)))
         A(r'^<(?:std|core)::slice::Split<.*> as Iterator>::collect::<Vec<', self.m_split_collect)
         A(r'^<(?:std|core)::slice::Split<.*> as Iterator>::(all|any)::<', self.m_split_all_any)
@@ -450,6 +454,9 @@ class Models:
         A(r'^Result::<.*>::ok$', lambda ex, c, a: some(a[0].fields[0]) if a[0].variant == 'Ok' else NONE())
         A(r'^Result::<.*>::is_ok$', lambda ex, c, a: ex.deref(a[0]).variant == 'Ok')
         A(r'^Result::<.*>::is_err$', lambda ex, c, a: ex.deref(a[0]).variant == 'Err')
+        A(r'^Result::<.*>::map::<', lambda ex, c, a: ok(ex.call_closure(a[1], [a[0].fields[0]])) if a[0].variant == 'Ok' else a[0])
+        A(r'^Result::<.*>::and_then::<', lambda ex, c, a: ex.call_closure(a[1], [a[0].fields[0]]) if a[0].variant == 'Ok' else a[0])
+        A(r'^Result::<.*>::unwrap_or::<?', lambda ex, c, a: a[0].fields[0] if a[0].variant == 'Ok' else a[1])
         A(r'^Result::<.*>::map_err::<', lambda ex, c, a: a[0] if a[0].variant == 'Ok' else err(ex.call_closure(a[1], [a[0].fields[0]])))
         A(r'^Result::<.*>::unwrap$', self.m_unwrap)
         A(r'^<Result<.*> as Try>::branch$', lambda ex, c, a: Agg('ControlFlow', 'Continue', [a[0].fields[0]]) if a[0].variant == 'Ok' else Agg('ControlFlow', 'Break', [err(a[0].fields[0])]))
@@ -779,6 +786,37 @@ class Models:
                 return True
             start = end + 1
         return is_all
+
+    def m_bytes_starts_ends(self, ex, c, a):
+        sl = self.any_slice(ex, a[0])
+        pat = as_bytes_list(ex, a[1])
+        if len(pat) > sl.len:
+            return False
+        items = sl.items()
+        part = items[:len(pat)] if c.endswith('starts_with') else items[sl.len - len(pat):]
+        return bytes_eq(part, pat)
+
+    def m_bsplit_next(self, ex, c, a):
+        it = ex.deref(a[0]) if isinstance(a[0], Ref) else a[0]
+        if it.extra.get('done'):
+            return NONE()
+        sl = it.slice
+        start = it.pos
+        for i in range(start, sl.len):
+            if ex.decide(ex.call_closure(it.extra['pred'], [ElemRef(sl, i)])):
+                it.pos = i + 1
+                return some(sl.sub(start, i))
+        it.extra['done'] = True
+        return some(sl.sub(start, sl.len))
+
+    def m_filter_count(self, ex, c, a):
+        it = a[0]
+        sl = it.slice
+        n = 0
+        for i in range(it.pos, sl.len):
+            if ex.decide(ex.call_closure(it.extra['pred'], [Ref(Cell(ElemRef(sl, i)))])):
+                n += 1
+        return usize(n)
 
     def m_split_collect(self, ex, c, a):
         it = a[0]
